@@ -18,7 +18,7 @@ ID = 'C02'
 COQ_FILES = ['props/C02.v']
 LEVEL = 'proof'
 FAMILIES = [('mixed', 150, 2000, {}), ('conditions', 50, 600, {}), ('locks', 40, 500, {}), ('queues', 40, 500, {}),
-            ('trees', 40, 600, {})]
+            ('trees', 40, 600, {}), ('resources', 40, 600, {})]
 MONITORS = ['C02']
 
 CONFIGS = [
@@ -146,9 +146,113 @@ def waiters_family(rng, n):
     return out
 
 
+def same_time_starts(rng, n):
+    """one activity plans several children for the SAME later time, mixing `after=d` and `at=now+d`, next to children that
+    start at once: they start in the order of the do() calls"""
+    out = []
+    for _ in range(n):
+        t0 = rng.choice([0, 2])
+        d = rng.choice([1, 2, 3])
+        body = []
+        for i in range(rng.choice([3, 4, 5])):
+            how = rng.choice(['after', 'at', 'at', 'after', 'now', 'other'])
+            start = {'after': ['after', d], 'at': ['at', t0 + d], 'now': ['now'],
+                     'other': rng.choice([['after', d + 1], ['at', t0 + d + 1]])}[how]
+            body.append(['do', 1, 1 + i, start, rng.random() < 0.2, [['log', 10 + i], ['await', ['instant']], ['log', 20 + i]]])
+        body.append(['await', ['delay', d + 3]])
+        root = ([['await', ['delay', t0]]] if t0 else []) + [['scope', 1, body], ['log', 1]]
+        out.append(('same-time-starts', dict(start=0, till=None, roots=[root], nflags=1, tracked=[0], nlocks=1, nqueues=1,
+                                             nchans=1, res=[])))
+    return out
+
+
+DIRECT = r'''
+import json, sys
+import usim
+out = []
+async def main():
+    # resource types with several names: the order of the levels (and of anything derived from iterating them)
+    for names in (('a', 'b', 'c'), ('zeta', 'alpha', 'mid', 'b'), ('x1', 'x2', 'x3', 'x4', 'x5')):
+        res = usim.Resources(**{n: i + 1 for i, n in enumerate(names)})
+        out.append(['levels', [list(kv) for kv in res.levels]])
+        out.append(['repr', repr(res.levels)])
+        async with res.borrow(**{names[0]: 1}) as share:
+            out.append(['borrowed', [list(kv) for kv in res.levels], [list(kv) for kv in share.levels]])
+        cap = usim.Capacities(**{n: 2 for n in names})
+        async with cap.borrow(**{names[-1]: 1, names[0]: 2}):
+            out.append(['cap', [list(kv) for kv in cap.levels], [list(kv) for kv in cap.limits]])
+        # decreasing exactly to zero and back is within the documented usage
+        await res.decrease(**{names[0]: 1})
+        out.append(['decreased', [list(kv) for kv in res.levels]])
+        await res.increase(**{names[0]: 1})
+    # failures of several children: the order of the children of the Concurrent
+    async def fail(i, d):
+        await (usim.time + d)
+        raise [KeyError, IndexError, ValueError, TypeError][i % 4](i)
+    try:
+        async with usim.Scope() as s:
+            for i in range(6):
+                s.do(fail(i, 1 if i % 2 else 1))
+    except usim.Concurrent as e:
+        # (not the NAME of the specialised class: it is built from a set of types and is cosmetic)
+        out.append(['concurrent', [type(c).__name__ + str(c.args) for c in e.children]])
+    # waiters of one flag / one tracked value wake in subscription order
+    flag, order = usim.Flag(), []
+    async def waiter(i):
+        await flag
+        order.append(i)
+    async with usim.Scope() as s:
+        for i in range(7):
+            s.do(waiter(i))
+        await (usim.time + 1)
+        await flag.set()
+    out.append(['wake', order])
+usim.run(main())
+json.dump(out, open(sys.argv[1], 'w'))
+'''
+
+
+def direct_programs(ctx):
+    """a fixed program on the public API whose observable output involves dictionaries / sets / type caches inside the
+    library (several named resources, Concurrent of several failures, waiter lists): equal in every configuration"""
+    d = tempfile.mkdtemp(prefix='c02d_', dir=ctx.casedir)
+    prog = os.path.join(d, 'direct.py')
+    open(prog, 'w').write(DIRECT)
+    outs = {}
+    configs = [('default', {'PYTHONHASHSEED': '0'}, [])] + CONFIGS + THOROUGH_EXTRA + \
+        [('hashseed%d' % k, {'PYTHONHASHSEED': str(k)}, []) for k in (6, 7, 8, 9, 10, 11)]
+    procs = []
+    for name, env, flags in configs:
+        e = dict(os.environ)
+        e.update(env)
+        e['PYTHONPATH'] = os.environ.get('USIM_REPO', '/repo') + ':' + VERIF
+        dst = os.path.join(d, name + '.json')
+        procs.append((name, dst, subprocess.Popen(['/venv/bin/python'] + flags + [prog, dst], env=e,
+                                                  stdout=subprocess.DEVNULL, stderr=subprocess.PIPE, cwd=d)))
+    for name, dst, p in procs:
+        _, err = p.communicate(timeout=600)
+        outs[name] = json.load(open(dst)) if p.returncode == 0 and os.path.exists(dst) else ('failed', err.decode()[-600:])
+    for f in os.listdir(d):
+        os.remove(os.path.join(d, f))
+    os.rmdir(d)
+    base = outs['default']
+    ctx.count({'direct_program': 'multi-resource / Concurrent / waiters'}, nontrivial=True)
+    ctx.bump('family:direct-programs', len(outs))
+    if isinstance(base, tuple):
+        ctx.fail({'direct_program': 'default'}, 'the direct program failed in the default configuration: %s' % base[1], family='direct')
+        return
+    for name, o in outs.items():
+        if o != base:
+            diff = o if isinstance(o, tuple) else [(a, b) for a, b in zip(base, o) if a != b][:2]
+            ctx.fail({'direct_program': name, 'program': DIRECT}, 'the direct API program gives another output under configuration %s '
+                     'than under the default one: %r' % (name, diff), family='direct')
+
+
 def run(ctx):
-    scs, impl = machine_prop.run(ctx, FAMILIES, MONITORS, extra_scenarios=waiters_family(ctx.rng, ctx.n(60, 1000)))
+    scs, impl = machine_prop.run(ctx, FAMILIES, MONITORS, extra_scenarios=waiters_family(ctx.rng, ctx.n(60, 1000)) +
+                                 same_time_starts(ctx.rng, ctx.n(40, 600)))
     differential(ctx, scs, impl)
+    direct_programs(ctx)
 
 
 def search(ctx):
